@@ -11,6 +11,7 @@ CONSTANTS
   MaxCells = 2
   MaxMerges = 0
   MaxSheets = 1
+  KindSeq <- KindsAll
   Rots = {0}
   Layouts <- LayStd
 INVARIANTS TypeOK PlacedByRef
